@@ -20,12 +20,13 @@ CATCH_ALL = ('Exception', 'BaseException')
 
 
 class N:
-    __slots__ = ('id', 'kind', 'ast', 'test', 'label', 'lineno')
+    __slots__ = ('id', 'kind', 'ast', 'test', 'label', 'lineno', 'matched')
 
     def __init__(self, id_, kind, node=None, test=None, label=''):
         self.id = id_
         self.kind = kind
         self.ast = node
+        self.matched = node   # test nodes: the form a predicate accepted
         self.test = test
         self.label = label
         self.lineno = getattr(node, 'lineno', 0) if node is not None else 0
